@@ -242,6 +242,19 @@ def check_C17(tier, seed):
     seeds = seed_sources(rng, 12 if quick else 80, 12 if quick else 80)
     cases = F.c17_cases(rng, seeds, 120 if quick else 600)
     drive_and_judge(rep, "C17", cases, "corrupt", ["mods"])
+    # abstract shaders (roles, every resource kind) under capability sets: Caps.tla predicts the gate, naga is the second oracle
+    rb = run_mc("MC_Bindings.tla", "MC_Bindings.cfg", workers=4, consts={"Slice": '"quick"' if quick else '"all"'})
+    caps = ["PUSH_CONSTANT", "FLOAT64", "SHADER_INT64", "CUBE_ARRAY_TEXTURES", "STORAGE_TEXTURE_16BIT_NORM_FORMATS", "DUAL_SOURCE_BLENDING", "SHADER_FLOAT32_ATOMIC", "TEXTURE_ATOMIC",
+            "TEXTURE_INT64_ATOMIC", "MULTISAMPLED_SHADING", "SUBGROUP"]
+    shaders = [c["S"] for c in cases_from_S(rb.cases[::(2 if quick else 1)], "row", "resource-table", vary_validate=False)]
+    shaders += [F.role_shader(rng)[0] for _ in range(60 if quick else 1500)]
+    shaders += [c["S"] for c in F.push_cases(rng, 40 if quick else 400)]
+    capcases = []
+    for i, S in enumerate(shaders):
+        x, y = caps[i % len(caps)], caps[(i * 7 + 3) % len(caps)]
+        for j, v in enumerate(["all", "empty", "all-" + x, "only-" + x, "all-" + y, "only-" + y, "nof64"]):
+            capcases.append({"id": "cap-%05d-%d" % (i, j), "family": "capability-sets", "S": S, "opts": F.opts(validate=v)})
+    drive_and_judge(rep, "C17", capcases, "caps", ["mods"])
     return finish(rep)
 
 
